@@ -94,6 +94,7 @@ Record flags : Type := {
                              '//' + a non-child axis + a name test empties the accumulated result *)
   f_fastpos : bool;       (* the key lookup is also used when the value expression calls position() or last(): they are
                              evaluated once, in a context of size 1 *)
+  f_normsp : bool;        (* xpath_normalize_space() keeps a single tab / line break between words *)
   f_texthash : bool       (* xpath_pi_text() retypes set items without updating the set's hash table (present from
                              4 items on); the consistency assert of set_sort() fails at the next predicate *)
 }.
@@ -102,13 +103,13 @@ Definition spec_flags : flags :=
   {| f_prec := 53; f_n2s := false; f_s2n := false; f_floor := false; f_bytes := false; f_strval := false;
      f_predtrunc := false; f_predglobal := false; f_following := false; f_preceding := false; f_rootstar := false;
      f_text := false; f_dslash := false; f_assert := false; f_crash := false; f_cmpbool := false; f_canon := false;
-     f_fast := false; f_nsaxis := false; f_attrnode := false; f_nonset := false; f_alldup := false; f_skip := false; f_fastpos := false; f_texthash := false |}.
+     f_fast := false; f_nsaxis := false; f_attrnode := false; f_nonset := false; f_alldup := false; f_skip := false; f_fastpos := false; f_normsp := false; f_texthash := false |}.
 
 Definition impl_flags : flags :=
   {| f_prec := 64; f_n2s := true; f_s2n := true; f_floor := true; f_bytes := true; f_strval := true;
      f_predtrunc := true; f_predglobal := true; f_following := true; f_preceding := true; f_rootstar := true;
      f_text := true; f_dslash := true; f_assert := true; f_crash := true; f_cmpbool := true; f_canon := true;
-     f_fast := true; f_nsaxis := true; f_attrnode := true; f_nonset := true; f_alldup := true; f_skip := true; f_fastpos := true; f_texthash := true |}.
+     f_fast := true; f_nsaxis := true; f_attrnode := true; f_nonset := true; f_alldup := true; f_skip := true; f_fastpos := true; f_normsp := true; f_texthash := true |}.
 
 (* error classes *)
 Definition E_TYPE : N := 7.        (* LY_EVALID: wrong operand / argument type, unknown function, wrong arity *)
@@ -634,7 +635,7 @@ Section Eval.
     | FString => Ok (VStr (str_of v))
     | FStrLen => Ok (VNum (x_of_Z (Z.of_nat (if f_bytes fl then impl_string_length (str_of v)
                                                else spec_string_length (str_of v)))))
-    | FNormSpace => Ok (VStr (normalize_space (str_of v)))
+    | FNormSpace => Ok (VStr (if f_normsp fl then impl_normalize_space (str_of v) else normalize_space (str_of v)))
     | FBoolean => Ok (VBool (to_bool v))
     | FNot => Ok (VBool (negb (to_bool v)))
     | FNumber => Ok (VNum (num_of v))
